@@ -114,7 +114,7 @@ func Run(ctx *common.Ctx) {
 		"and sxhash observed (designed triples include one value as fixnum / bignum / ratio / single / double, k / K / KELVIN SIGN nested in lists and vectors, 2^79 against " +
 		"(2^80+3)/2, a fixnum beyond 2^53 with the floats it converts to). hash cases: a pool of 3-6 such keys (hashable kinds incl. bignums and ratios in separately allocated copies, " +
 		"lists that the table must refuse with a type-error, variants of each other), a table made with a random :test, a history of " +
-		"up to 12 setf-gethash/gethash/remhash/clrhash/hash-table-count/maphash with every result observed. type cases: typep of one object of every kind for every " +
+		"up to 12 setf-gethash/gethash/remhash/clrhash/hash-table-count/maphash with every result observed; stored values are nil or value objects (fixnum, double-float, single-float, two separate lists of one number 1..90: ObjectEqual to each other, not the same object), identified on return; 25 enumerated histories store every ordered pair of representations under one key. type cases: typep of one object of every kind for every " +
 		"registered class name, every hierarchy symbol and some unknown or upper-case names; subtypep on all ordered pairs of class names (sampled above 4000) plus " +
 		"list designators; coerce of every kind to every coercion target. distinct_nontrivial counts distinct eq cases in which some pair is related by one predicate " +
 		"but not by a stronger one, plus distinct hash histories with at least one overwrite or removal of a present key."
@@ -457,6 +457,8 @@ func (g *gen) bytePool() []aref {
 // fixedPool: the pools every run starts with, each used for three histories of 12 operations: every kind of
 // number held by a pointer (bignum, ratio, signed-byte, unsigned-byte) as two separately created objects per value
 // plus a second value, and the low-word pairs (bignum / fixnum, ratios with congruent denominators).
+const nFixedPools = 9
+
 func (g *gen) fixedPool(c int) []aref {
 	two := func(a, b *node) []aref { return []aref{mkref(a), mkref(a), mkref(b), mkref(b), mkref(a)} }
 	pools := []func() []aref{
@@ -471,6 +473,9 @@ func (g *gen) fixedPool(c int) []aref {
 		},
 		func() []aref { return two(nBig(add(p64, 1)), nFix(1)) },
 		func() []aref { return two(nSB(9), nStr("9")) },
+	}
+	if len(pools) != nFixedPools {
+		panic("c16: nFixedPools out of date")
 	}
 	if c/3 >= len(pools) {
 		return nil
@@ -575,9 +580,13 @@ func runHt(ctx *common.Ctx, g *gen, n int) {
 		ctx.Hist("ht-make:" + strings.TrimSpace(mk))
 		pool := g.fixedPool(c) // a fixed block of pools first (full-length histories), then drawn ones
 		fixed := pool != nil
+		var script []sop // then the enumerated value histories (every ordered pair of value representations)
 		if !fixed {
-			pool = g.keyPool()
+			if pool, script = valueScript(c - nFixedPools*3); pool == nil {
+				pool = g.keyPool()
+			}
 		}
+		vals := newVals()
 		w := words{}
 		pterms := make([]string, len(pool))
 		pshow := make([]string, len(pool))
@@ -599,27 +608,54 @@ func runHt(ctx *common.Ctx, g *gen, n int) {
 		if fixed {
 			nops = 12
 		}
+		if script != nil {
+			nops = len(script)
+			ctx.Hist("ht-history:enumerated-value-pair")
+		}
 		ops := make([]string, 0, nops)
 		obs := make([]string, 0, nops)
 		oshow := make([]string, 0, nops)
 		present := map[int]bool{}
+		last := map[int]int64{} // the value code last stored under the key of that pool index
 		interesting := false
 		for k := 0; k < nops; k++ {
-			i := g.rng.Intn(len(pool))
+			var i, r int
+			var v int64
+			if script != nil {
+				i, r, v = script[k].key, script[k].op, script[k].val
+			} else {
+				i, r = g.rng.Intn(len(pool)), g.rng.Intn(20)
+			}
 			key := pool[i].o
-			switch r := g.rng.Intn(20); {
+			switch {
 			case r < 8:
-				// values are fixnums 1..90, or nil (written 0 in the case: the model's values are integers)
-				v := int64(g.rng.Intn(90) + 1)
-				var vo slip.Object = slip.Fixnum(v)
-				if g.rng.Chance(12) {
-					v, vo = 0, nil
+				// values are value OBJECTS named by a code (coq/C16/Model.v section 7): nil = 0, else 100*rep + n with
+				// n in 1..90 and rep 0 fixnum, 1 double-float, 2 single-float, 3 / 4 two separately made lists (n).
+				// One store in three over a present key stores the same number in a drawn representation: a different
+				// object that slip.ObjectEqual accepts against the current one, or the very same object again.
+				if script == nil {
+					v = int64(g.rng.Intn(90) + 1)
+					if g.rng.Chance(40) {
+						v += 100 * int64(g.rng.Intn(nValReps))
+					}
+					if old, has := last[i]; has && old != 0 && g.rng.Chance(33) {
+						v = old%100 + 100*int64(g.rng.Intn(nValReps))
+					}
+					if g.rng.Chance(12) {
+						v = 0
+					}
 				}
+				if old, has := last[i]; has && present[i] && old != v && old != 0 && v != 0 && old%100 == v%100 && (old/100 < 3) == (v/100 < 3) {
+					ctx.Hist("ht-put:object-equal-but-different-value-over-present-key")
+				}
+				ctx.Hist("ht-value:" + valRepName(v))
+				last[i] = v
+				vo := vals.obj(v)
 				ops = append(ops, fmt.Sprintf("HPut %d %s", i, common.GZ(v)))
-				out := evalForm(s, slip.List{slip.Symbol("setf"), slip.List{slip.Symbol("gethash"), quote(key), ht}, vo})
+				out := evalForm(s, slip.List{slip.Symbol("setf"), slip.List{slip.Symbol("gethash"), quote(key), ht}, quote(vo)})
 				if out.Err != "" {
 					obs = append(obs, errObs(out))
-				} else if z, ok := valCode(first(out.Value)); ok {
+				} else if z, ok := vals.code(first(out.Value)); ok {
 					obs = append(obs, "OVal "+common.GZ(z))
 				} else {
 					obs = append(obs, "OBadKey")
@@ -638,7 +674,7 @@ func runHt(ctx *common.Ctx, g *gen, n int) {
 				default:
 					vs, _ := out.Value.(slip.Values)
 					if len(vs) == 2 && vs[1] == slip.True {
-						if z, ok := valCode(vs[0]); ok {
+						if z, ok := vals.code(vs[0]); ok {
 							obs = append(obs, "OGet (Some "+common.GZ(z)+")")
 						} else {
 							obs = append(obs, "OBadKey")
@@ -680,7 +716,7 @@ func runHt(ctx *common.Ctx, g *gen, n int) {
 				oshow = append(oshow, "count -> "+obs[len(obs)-1])
 			default:
 				ops = append(ops, "HMap")
-				obs = append(obs, mapObs(s, ht, pool))
+				obs = append(obs, mapObs(s, ht, pool, vals))
 				oshow = append(oshow, "maphash -> "+obs[len(obs)-1])
 			}
 		}
@@ -703,7 +739,9 @@ func runHt(ctx *common.Ctx, g *gen, n int) {
 		"Definition histories_in_table_guard := Eval vm_compute in ht_guarded cases : N.\nPrint histories_in_table_guard.\n" +
 		"Definition histories_not_a_finite_map_under_the_test := Eval vm_compute in ht_spec_violations cases : N.\nPrint histories_not_a_finite_map_under_the_test.\n" +
 		"Definition guarded_pools_outside_pool_ok := Eval vm_compute in ht_guard_implies_pool_ok cases : N.\nPrint guarded_pools_outside_pool_ok.\n" +
-		"Definition byte_key_histories_in_table_guard := Eval vm_compute in ht_byte_pools_guarded cases : N.\nPrint byte_key_histories_in_table_guard.\n"
+		"Definition byte_key_histories_in_table_guard := Eval vm_compute in ht_byte_pools_guarded cases : N.\nPrint byte_key_histories_in_table_guard.\n" +
+		"Definition stores_of_an_equal_but_different_value_object := Eval vm_compute in ht_equal_value_overwrites cases : N.\nPrint stores_of_an_equal_but_different_value_object.\n" +
+		"Definition malformed_value_codes := Eval vm_compute in ht_malformed_values cases : N.\nPrint malformed_value_codes.\n"
 	ctx.WriteShards("cases_ht", header, "ht_case", footer, terms, descs, 6)
 	ctx.Meta.Evaluations += len(terms)
 	ctx.Meta.DistinctNontrivial += nontrivial
@@ -734,7 +772,7 @@ func boolObs(o common.Outcome) string {
 
 // mapObs runs maphash with a collecting lambda and names every key by the smallest pool index holding
 // a key that Go considers equal.
-func mapObs(s *slip.Scope, ht slip.Object, pool []aref) string {
+func mapObs(s *slip.Scope, ht slip.Object, pool []aref, vals *valReg) string {
 	s.Let(slip.Symbol("c16-acc"), nil)
 	code := slip.ReadString("(lambda (k v) (setq c16-acc (cons (list k v) c16-acc)))", s)
 	out := evalForm(s, slip.List{slip.Symbol("maphash"), code[0], ht})
@@ -752,7 +790,7 @@ func mapObs(s *slip.Scope, ht slip.Object, pool []aref) string {
 		if !ok || len(pair) != 2 {
 			return "OBadKey"
 		}
-		f, ok := valCode(pair[1])
+		f, ok := vals.code(pair[1])
 		if !ok {
 			return "OBadKey"
 		}
@@ -848,13 +886,110 @@ func noteLaws(ctx *common.Ctx, shows, kindsOf []string, m [3][3][4]int, hs []str
 	}
 }
 
-// valCode: stored values are fixnums 1..90 or nil, written 0
-func valCode(o slip.Object) (int64, bool) {
-	if o == nil {
-		return 0, true
+// ---- stored values ------------------------------------------------------------------------------------
+//
+// A stored value is an object, named in the cases by the code of coq/C16/Model.v section 7: 0 is nil, otherwise
+// 100*rep + n (n in 1..99): rep 0 the fixnum n, 1 the double-float n.0, 2 the single-float n.0, 3 and 4 two
+// separately made lists (n).  Objects of different codes with one n and both numbers (or both lists) are
+// slip.ObjectEqual without being the same object; what a lookup returns is decoded back by Go type and value, a
+// list by the address of its first cell against the two boxes made for the case.
+const nValReps = 5
+
+type valReg struct{ objs map[int64]slip.Object }
+
+func newVals() *valReg { return &valReg{objs: map[int64]slip.Object{}} }
+
+func valRepName(code int64) string {
+	if code == 0 {
+		return "nil"
 	}
-	if f, ok := o.(slip.Fixnum); ok && f != 0 {
-		return int64(f), true
+	return []string{"fixnum", "double-float", "single-float", "list-box-a", "list-box-b"}[code/100]
+}
+
+// obj: the object of a code, made once per case (storing a code again stores the same object again)
+func (r *valReg) obj(code int64) slip.Object {
+	if code == 0 {
+		return nil
+	}
+	if o, has := r.objs[code]; has {
+		return o
+	}
+	var o slip.Object
+	n := code % 100
+	switch code / 100 {
+	case 0:
+		o = slip.Fixnum(n)
+	case 1:
+		o = slip.DoubleFloat(float64(n))
+	case 2:
+		o = slip.SingleFloat(float32(n))
+	default:
+		l := make(slip.List, 1)
+		l[0] = slip.Fixnum(n)
+		o = l
+	}
+	r.objs[code] = o
+	return o
+}
+
+// code: which value object came back
+func (r *valReg) code(o slip.Object) (int64, bool) {
+	inRange := func(f float64) bool { return f == float64(int64(f)) && 1 <= f && f <= 99 }
+	switch v := o.(type) {
+	case nil:
+		return 0, true
+	case slip.Fixnum:
+		if 1 <= v && v <= 99 {
+			return int64(v), true
+		}
+	case slip.DoubleFloat:
+		if inRange(float64(v)) {
+			return 100 + int64(v), true
+		}
+	case slip.SingleFloat:
+		if inRange(float64(v)) {
+			return 200 + int64(v), true
+		}
+	case slip.List:
+		if len(v) != 1 {
+			return 0, false
+		}
+		f, ok := v[0].(slip.Fixnum)
+		if !ok || f < 1 || 99 < f {
+			return 0, false
+		}
+		for _, rep := range []int64{3, 4} {
+			if box, has := r.objs[100*rep+int64(f)].(slip.List); has && len(box) == 1 && &box[0] == &v[0] {
+				return 100*rep + int64(f), true
+			}
+		}
 	}
 	return 0, false
+}
+
+// sop: one scripted operation (op numbered like the random draw: < 8 put, < 13 get, < 16 rem, 16 clr, < 19 count, 19 maphash)
+type sop struct {
+	op, key int
+	val     int64
+}
+
+// valueScript: the enumerated value histories, the same on every run - for every ORDERED pair (ra, rb) of the five
+// value representations (the pair (r, r) stores the same object again) a history over a pool of a symbol, a
+// fixnum, a string and a second reference to the symbol that stores the number n as ra and then as rb under one
+// key and looks it up after each store, lists the entries, does the same in the other order under a second key,
+// and stores rb again after a remhash.  Returns nil beyond the block.
+func valueScript(c int) ([]aref, []sop) {
+	if c < 0 || c >= nValReps*nValReps {
+		return nil, nil
+	}
+	ra, rb := int64(c/nValReps), int64(c%nValReps)
+	n := int64(5 + c)
+	a, b := 100*ra+n, 100*rb+n
+	const put, get, rem, count, mapc = 0, 8, 13, 17, 19
+	pool := []aref{mkref(nSym("k")), mkref(nFix(7)), mkref(nStr("x")), mkref(nSym("k"))}
+	return pool, []sop{
+		{put, 0, a}, {get, 0, 0}, {put, 3, b}, {get, 0, 0}, {mapc, 0, 0},
+		{put, 1, b}, {put, 1, a}, {get, 1, 0}, {count, 0, 0},
+		{rem, 0, 0}, {put, 2, a}, {put, 2, b}, {get, 2, 0}, {put, 0, b}, {get, 3, 0}, {mapc, 0, 0},
+	}
 }
